@@ -41,14 +41,35 @@ fn pipe_drop_output(cfg: &Cfg) {
     if mode == 2 {
         out.set_backpressure_depth(1);
     }
+    if mode == 3 {
+        out.set_backpressure_depth(1);
+    }
     let ctl2 = ctl.clone();
     let t1 = spawn(move || {
         match mode {
             0 => ctl2.push(1),
-            2 => { ctl2.push(1); ctl2.push(2); }
+            2 | 3 => { ctl2.push(1); ctl2.push(2); }
             _ => {}
         }
     });
+    if mode == 3 {
+        // nothing is ever read: the producer ends up parked on back-pressure, and only then is the stream dropped
+        join(t1, "producer");
+        rt::quiesce();
+        drop(out);
+        rt::quiesce();
+        if ctl.stream_drops() != 1 || closure_drops.load(AO::SeqCst) != 1 {
+            rt::violation(format!("PIPE-LEAK output stream dropped while the producer was throttled by back-pressure: input stream drops={} closure drops={}", ctl.stream_drops(), closure_drops.load(AO::SeqCst)));
+        }
+        if Arc::strong_count(&obj) != 1 {
+            rt::violation(format!("PIPE-LEAK the pipe still holds {} strong reference(s) on the Desync", Arc::strong_count(&obj) - 1));
+        }
+        drop(obj);
+        check_no_unplanned_panics();
+        rt::quiesce();
+        shutdown();
+        return;
+    }
     if mode == 2 {
         // let the consumer see what is there
         let _ = block_on(out.next());
@@ -127,9 +148,30 @@ fn pipe_in_items(cfg: &Cfg) {
         st2.exit();
         futures::future::ready(()).boxed()
     });
+    // `pin`=1: every pool thread is pinned by a blocking job and a stale schedule entry is left in front (a queue scheduled
+    // and then run by its caller) before the items arrive; the environment frees the pool threads afterwards
+    let mut pins = vec![];
+    if cfg.opt("pin", 0) == 1 {
+        for i in 0..pool {
+            let bq = w.raw();
+            let bg = BGate::new();
+            w.desync(&bq, &format!("pin{}", i), Body::blocking(&bg));
+            pins.push((bq, bg));
+        }
+        rt::quiesce();
+        let a = w.raw();
+        w.desync(&a, "A", Body::plain());
+        w.sync(&a, "SA", Body::plain());
+    }
     // weak ownership: the pipe must not keep the Desync alive
     let ctl2 = ctl.clone();
-    let producer = spawn(move || feed(&ctl2, n, pat, fin == 0));
+    let bgs: Vec<BGate> = pins.iter().map(|p| p.1.clone()).collect();
+    let producer = spawn(move || {
+        feed(&ctl2, n, pat, fin == 0);
+        for bg in &bgs {
+            bg.open();
+        }
+    });
     let mut hs = vec![];
     let wobj = Obj::D(obj.clone(), st.clone());
     match conc {
